@@ -360,7 +360,22 @@ def planPostWF (size bs : Nat) (plan : List Chunk) : Option String :=
   -- has both of its subtrees in the plan (just before it)
   if plan.any (fun c => match c with | .parent _ _ l r _ => !(l && r) | _ => false) then
     some "a parent of the post-order plan does not flag both children"
-  else none
+  else
+  -- "every parent comes after its subtree": walking the plan with a stack of chunk spans, a parent must find the
+  -- spans of its two subtrees on top - adjacent, meeting exactly at the node's middle chunk - and replaces them
+  -- by their union
+  let spans := plan.foldl (fun (st : Option (List (Nat × Nat))) c =>
+    match st with
+    | none => none
+    | some st =>
+      match c with
+      | .leaf s z _ _ => some ((s, s + max 1 ((z + 1023) / 1024)) :: st)
+      | .parent node _ _ _ _ =>
+        match st with
+        | (rs, re) :: (ls, le) :: rest =>
+          if le == rs && rs == Node.mid node then some ((ls, re) :: rest) else none
+        | _ => none) (some [])
+  if spans.isNone then some "a parent does not come right after its two subtrees" else none
 
 /-- `plan size bs minLevel ranges` (pre-order partial), `rplan size bs ranges` (response),
 `pplan size bs` (post-order) -/
